@@ -4,7 +4,7 @@
 // cfg: [0] n stations declared, [1] p (-1 = own address absent), [2] decoy (0 none, 1 near-miss addresses, 2 own address straddling two slots),
 //      [3] table class 0..6, [4] opcode, [5] ToS, [6] real destination broadcast?, [7] held (-1 = n; else stations really inside the received length),
 //      [8] generation, [9] xid
-enum { T_NULL, T_EMPTY, T_SAME_SAME_XID, T_SAME_OTHER_XID, T_SAME_MAPPER_OTHER_GEN, T_OTHER_MAPPER_SAME_GEN, T_FULL_OTHERS, T_HOLE_THEN_OTHER_XID, T_HOLE_THEN_SAME_XID, T_NCLASSES };
+enum { T_NULL, T_EMPTY, T_SAME_SAME_XID, T_SAME_OTHER_XID, T_SAME_MAPPER_OTHER_GEN, T_OTHER_MAPPER_SAME_GEN, T_FULL_OTHERS, T_HOLE_THEN_OTHER_XID, T_HOLE_THEN_SAME_XID, T_SAME_SAME_XID_COMPLETE, T_SAME_OTHER_XID_COMPLETE, T_NCLASSES };
 
 static const Mac OWN = {{0x02, 0x11, 0x22, 0x33, 0x44, 0x55}};
 static const Mac MAPPER = {{0x02, 0xAA, 0x00, 0x00, 0x00, 0x01}};
@@ -57,6 +57,13 @@ static Verdict run(const Case &c) {
             br_st_remove(t, other.b, gen);
             changed = tclass == T_HOLE_THEN_OTHER_XID;
             break;
+        case T_SAME_SAME_XID_COMPLETE: case T_SAME_OTHER_XID_COMPLETE: {   // the session is known and already marked complete (an earlier acknowledging Discover)
+            void *e = br_st_add(t, MAPPER.b, gen, tclass == T_SAME_OTHER_XID_COMPLETE ? (uint16_t)(xid ^ 0x0100) : xid);
+            if (e) { br_entry_set_complete(e, 1); br_entry_set_state(e, 3); }
+            br_st_update(t);
+            changed = tclass == T_SAME_OTHER_XID_COMPLETE;
+            break;
+        }
         default: break;
     }
     Bytes before;
@@ -110,7 +117,7 @@ int main(int argc, char **argv) {
     Current::install(a.failing);
     Evidence ev;
     ev.rule = "derive_session_event (built without LLTD_TESTING) on harness-built frames in a malloc(1500) buffer. Enumerated: every (n, position) layout (quick: n <= 40; thorough: n <= 240, 29161 layouts) "
-              "x 9 session-table classes (null, empty, same/other transaction, other generation, other mapper, full, and the matching session behind a freed slot); all 256 opcodes x real destination broadcast/unicast. Random: n 0..240, position, near-miss decoys, own address straddling two slots, "
+              "x 11 session-table classes (null, empty, same/other transaction, other generation, other mapper, full, the matching session behind a freed slot, the matching session already complete); all 256 opcodes x real destination broadcast/unicast. Random: n 0..240, position, near-miss decoys, own address straddling two slots, "
               "count larger than the frame holds, generation/xid, ToS. non-trivial = Discover with n >= 2 and own address at index >= 1, or a decoy present; distinct = digest of the case";
     bool ok = true;
     int nmax = a.quick() ? 40 : 240;
